@@ -190,6 +190,9 @@ func (p *Program) schema(backend string) (*Schema, error) {
 }
 
 var errNoRowsObj = &OpaqueV{kind: "error", data: "sql: no rows in result set", id: -1}
+var errTxDoneObj = &OpaqueV{kind: "error", data: "sql: transaction has already been committed or rolled back", id: -2}
+
+func (p *Program) errTxDone() Value { return &IfaceV{typ: p.errorStringType(), v: errTxDoneObj} }
 
 func (p *Program) errNoRows(ex *Exec) Value {
 	return &IfaceV{typ: p.errorStringType(), v: errNoRowsObj}
@@ -203,6 +206,8 @@ func (ex *Exec) externGlobal(g *ssa.Global, et types.Type) (Value, bool) {
 	switch full {
 	case "database/sql.ErrNoRows":
 		return ex.P.errNoRows(ex), true
+	case "database/sql.ErrTxDone":
+		return ex.P.errTxDone(), true
 	}
 	if !ex.P.isRepoPkg(g.Pkg.Pkg.Path()) {
 		// unknown external global: opaque value of its type
